@@ -338,6 +338,7 @@ class Interp:
         self.iterations = []  # list of (loopvalue, events)
         self.encl_class = {}  # block id -> sharing class within the site
         self.oob = []
+        self.unmodelled = []
         self.steps = 0
         self.globals = {}
         self.site_info = None
@@ -356,8 +357,17 @@ class Interp:
         if block.freed:
             self.oob.append(dict(what="use-after-free", loc="%s[%s]" % (block.name, off), line=_line_of(node)))
         if off is None:
-            raise ModelError("data-dependent index into %s at line %s (scenario incomplete)"
-                             % (block.name, _line_of(node)))
+            # data-dependent index.  Memory that is thread-private by construction: nothing to log (the
+            # caller forgets what the block holds).  Memory another thread can see: the access could be
+            # anywhere in the block - logged on the wildcard location `name[*]` as a shared access and the
+            # site is marked as not fully modelled (reported through TLC as omp:Unmodelled, never exit 2).
+            if block.cls in RECORDED and self.encl_class.get(id(block), "shared") != "loopvar":
+                why = "data-dependent index into %s in %s line %s" % (block.name, self.frames[-1].fname, _line_of(node))
+                if why not in self.unmodelled:
+                    self.unmodelled.append(why)
+                if self.cur_events is not None:
+                    self.cur_events.append((kind, "%s[*]" % block.name, "shared", self.spec > 0))
+            return
         if off < 0 or (block.nbytes is not None and (off + 1) * es > block.nbytes):
             self.oob.append(dict(what="out-of-bounds " + ("write" if kind else "read"),
                                  loc="%s[%d]" % (block.name, off), size_bytes=block.nbytes,
@@ -366,14 +376,22 @@ class Interp:
             sc = self.encl_class.get(id(block), "shared")
             if sc == "loopvar":
                 return
-            self.cur_events.append((kind, block.name if block.scalar else "%s[%d]" % (block.name, off), sc))
+            self.cur_events.append((kind, block.name if block.scalar else "%s[%d]" % (block.name, off), sc,
+                                    self.spec > 0))
 
     def load(self, block, off, node, es=8):
         self.log(0, block, off, node, es)
+        if off is None:
+            return UNK
         return block.data.get(off, UNK)
 
     def store(self, block, off, val, node, es=8):
         self.log(1, block, off, node, es)
+        if off is None:
+            # any cell of the block may have been overwritten
+            for o in list(block.data):
+                self.store_raw(block, o, UNK)
+            return
         self.store_raw(block, off, val)
 
     def store_raw(self, block, off, val):
@@ -520,8 +538,6 @@ class Interp:
             sub = n["inner"][0]
             if ck == "LValueToRValue":
                 b, off = self.lvalue(sub)
-                if off is None:
-                    raise ModelError("data-dependent index (read) in %s line %s" % (self.frames[-1].fname, _line_of(n)))
                 return self.load(b, off, n, elsize(qtype(n)))
             if ck == "ArrayToPointerDecay":
                 b, off = self.lvalue(sub)
@@ -598,8 +614,6 @@ class Interp:
             r = self.eval(rhs)
             b, off = self.lvalue(lhs)
             es = elsize(qtype(lhs))
-            if off is None:
-                raise ModelError("data-dependent index (update) in %s line %s" % (self.frames[-1].fname, _line_of(n)))
             old = self.load(b, off, n, es)
             new = self.arith(op, old, r, qtype(lhs), n)
             if is_float_type(qtype(lhs)):
@@ -707,8 +721,6 @@ class Interp:
         if op == "=":
             v = self.eval(rhs)
             b, off = self.lvalue(lhs)
-            if off is None:
-                raise ModelError("data-dependent index (write) in %s line %s" % (self.frames[-1].fname, _line_of(n)))
             q = qtype(lhs)
             if is_float_type(q):
                 v = UNK
@@ -1023,10 +1035,13 @@ class Interp:
         for did, b in fr.env.items():
             by_name.setdefault(b.name.split("#")[0], b)
         classes = {}
-        for nm in cl["private"] + cl["lastprivate"]:
+        for nm in cl["private"]:
             classes[nm] = "private"
         for nm in cl["firstprivate"] + cl["reduction"]:
             classes[nm] = "firstprivate"
+        for nm in cl["lastprivate"]:
+            # copied out of the thread that ran the sequentially last iteration
+            classes[nm] = "firstlastprivate" if nm in cl["firstprivate"] else "lastprivate"
         for nm in cl["shared"]:
             classes[nm] = "shared"
         for nm, c in classes.items():
@@ -1048,7 +1063,7 @@ class Interp:
                 raise ModelError("cannot evaluate if-clause %r" % cl["if"])
         self.site_info = dict(pragma=txt, clauses={k: v for k, v in cl.items() if v},
                               loopvar=lvdecl.get("name"), parallel=bool(par))
-        private_blocks = [by_name[nm] for nm, c in classes.items() if c == "private"]
+        private_blocks = [by_name[nm] for nm, c in classes.items() if c in ("private", "lastprivate")]
         self.in_iter = True
         i = lo
         count = 0
@@ -1253,12 +1268,22 @@ def compress(events):
     """Per-location stutter removal: R+ -> R, W+ -> W (order otherwise kept)."""
     last = {}
     out = []
-    for (k, loc, sc) in events:
+    for ev in events:
+        k, loc, sc = ev[0], ev[1], ev[2]
         if last.get(loc) == k:
             continue
         last[loc] = k
         out.append((k, loc, sc))
     return out
+
+
+def conditional_writes(events):
+    """Locations this iteration writes only under data-dependent control flow (never unconditionally)."""
+    must, may = set(), set()
+    for ev in events:
+        if ev[0] == 1:
+            (may if (len(ev) > 3 and ev[3]) else must).add(ev[1])
+    return may - must
 
 
 def build_models(repo):
@@ -1271,16 +1296,23 @@ def build_models(repo):
     sites = [s for s in prog.sites()]
     models = []
     for s in sites:
-        if s["kind"] != "OMPParallelForDirective":
-            raise ModelError("unsupported OpenMP construct %s at %s:%s" % (s["kind"], s["file"], s["line"]))
         try:
+            if s["kind"] != "OMPParallelForDirective":
+                raise ModelError("unsupported OpenMP construct %s at %s:%s" % (s["kind"], s["file"], s["line"]))
             it = run_site(prog, s)
         except ModelError as e:
-            raise ModelError("%s:%s (%s): %s" % (s["file"], s["line"], s["func"], e))
+            # a construct of the (possibly edited) source that the interpreter cannot classify must not
+            # become a machinery failure: the site is handed to TLC as unmodelled (invariant SiteModelled)
+            models.append(dict(name="%s:%s#%d" % (s["file"], s["func"], s["ordinal"]), file=s["file"], func=s["func"],
+                               line=s["line"], pragma="(not modelled)", clauses={}, parallel=True, loopvar="?",
+                               iters=[0, 1], locs=[], cls=[], acc=[[], []], oob=[], steps=0, maywr=[],
+                               unmodelled=[str(e)], scan=scan_descriptor(dict(func="", ordinal=-1), [])))
+            continue
         locs = {}
         cls = []
         acc = []
-        for (_i, ev) in it.iterations:
+        maywr = []
+        for n_it, (_i, ev) in enumerate(it.iterations):
             row = []
             for (k, loc, sc) in compress(ev):
                 if loc not in locs:
@@ -1288,11 +1320,14 @@ def build_models(repo):
                     cls.append(sc)
                 row.append((k, locs[loc]))
             acc.append(row)
+            for loc in conditional_writes(ev):
+                maywr.append((n_it + 1, locs[loc]))
         models.append(dict(name="%s:%s#%d" % (s["file"], s["func"], s["ordinal"]), file=s["file"],
                            func=s["func"], line=s["line"], pragma=it.site_info["pragma"],
                            clauses=it.site_info["clauses"], parallel=it.site_info["parallel"],
                            loopvar=it.site_info["loopvar"], iters=[i for i, _ in it.iterations],
-                           locs=list(locs), cls=cls, acc=acc, oob=it.oob, steps=it.steps,
+                           locs=list(locs), cls=cls, acc=acc, oob=it.oob, steps=it.steps, maywr=maywr,
+                           unmodelled=list(it.unmodelled),
                            scan=scan_descriptor(s, list(locs))))
     return models, prog
 
